@@ -139,7 +139,7 @@ def run(ctx):
                 kl0, p0, g0 = refimpl.parse_ffc_params(sp)
                 pub = refimpl.ffc_key(kl0 + repad, p0, g0, int.from_bytes(pub[8 + 2 * kl0:8 + 3 * kl0], "big"))
             env_s = gen.make_env(kdf_parameters=seed_env.kdf_parameters, l2_key=pub, l1_key=b"", flags=1, secret_algorithm=sa, secret_parameters=sp, private_key_length=plen)
-        inp0 = {"mode": mode, "hash": hn, "l2": hx(l2), "secret_parameters": hx(sp)[:80], "private_key_length": plen, **({"key_length_padding": repad} if repad else {}),
+        inp0 = {"mode": mode, "hash": hn, "l2": hx(l2), "secret_parameters": (hx(sp) if mode == "DHsmall" else hx(sp)[:80]), "private_key_length": plen, **({"key_length_padding": repad} if repad else {}),
                 **({"scenario": scenario} if scenario else {})}
         drawn = []
 
@@ -190,7 +190,7 @@ def run(ctx):
             if z[0] == 0 or kid.key_info[8:9] == b"\x00" or kid.key_info[8 + (len(kid.key_info) - 8) // 3 * 2: 9 + (len(kid.key_info) - 8) // 3 * 2] == b"\x00":
                 lead_real += 1
         if not (kek == kek_r == indep):
-            ctx.violation("KEK disagreement with real crypto", {"mode": mode, "hash": hn, "draw": hx(draw), "l2": hx(l2), "secret_parameters": hx(sp)[:80], "private_key_length": plen,
+            ctx.violation("KEK disagreement with real crypto", {"mode": mode, "hash": hn, "draw": hx(draw), "l2": hx(l2), "secret_parameters": (hx(sp) if mode == "DHsmall" else hx(sp)[:80]), "private_key_length": plen,
                                                                 **({"scenario": scenario} if scenario else {}), **({"key_length_padding": repad} if repad else {}),
                                                                 **({"first_draw": first_draw} if first_draw is not None else {})},
                           f"sender={hx(kek)} receiver={hx(kek_r)}", f"independent={hx(indep)}")
@@ -201,6 +201,13 @@ def run(ctx):
             for _ in range(reps):
                 real_case(hn, mode, gen.rand_bytes(rng, 64), rng.choice([512, 256, 384, 16, 8]), rng.choice(SMALL_GROUPS),
                           repad=rng.choice([0, 0, 1, 4]) if mode == "DHsmall" else (rng.choice([0, 1, 4]) if mode == "DH" else 0))
+    # ---- (b2) fixed-width sweep: the same small group published with key_length equal to every digest / curve size and its neighbours
+    #      (20, 28, 32, 48, 64, 66 …): the KDF hash and output length must not depend on the width of the serialised secret
+    for kl_ in (5, 8, 16, 20, 21, 24, 28, 32, 33, 47, 48, 49, 64, 65, 66, 67, 96, 128, 132):
+        for hn in (HASHES if ctx.thorough else [HASHES[kl_ % len(HASHES)], HASHES[(kl_ + 1) % len(HASHES)]]):
+            (_, p_, g_) = rng.choice([grp for grp in SMALL_GROUPS if grp[0] <= kl_] or SMALL_GROUPS[:1])
+            real_case(hn, "DHsmall", gen.rand_bytes(rng, 64), rng.choice([512, 256, 384]), (kl_, p_, g_), scenario="key_length sweep")
+            ctx.count(f"real:key_length_sweep")
     # ---- (b1) ephemeral exponents that give a degenerate public value (g^x = 1 or p − 1) in a small group, scripted as the FIRST draw:
     #      whatever the sender then does (keep it, or draw again), the KEK it returns must belong to the public value it stores
     for (kl_, p_, g_) in [grp for grp in SMALL_GROUPS if grp[1] < 2**17]:
